@@ -171,6 +171,15 @@ def ws_live_comps(task):
                                                                   fit_intercept=task["fit_intercept"])),
                            datafit=dict(name="Quadratic"), penalty=dict(name="WeightedL1", alpha=0.3, weights=list(wz), positive=pos),
                            X=WS_X.tolist(), y=WS_Y.tolist(), storage="denseF", xid="ws6x5", dev=3, live=True)
+            # the same problem with the first two features rescaled by 8 (and their coefficients by 1/8 through the weights: the
+            # curvature constants of the low feature indices are 64 times those of the others)
+            Xs = WS_X.copy()
+            Xs[:, :2] *= 8.0
+            ws_ = [wz[0] * 8.0, wz[1] * 8.0] + list(wz[2:])
+            yield dict(solver=dict(name="AndersonCD", kw=dict(p0=task["p0"], max_iter=60, max_epochs=5000, tol=1e-8, ws_strategy=strat,
+                                                              fit_intercept=task["fit_intercept"])),
+                       datafit=dict(name="Quadratic"), penalty=dict(name="WeightedL1", alpha=0.3, weights=ws_, positive=False),
+                       X=Xs.tolist(), y=WS_Y.tolist(), storage="denseF", xid="ws6x5-scaled", dev=3, live=True)
 
 
 def check_buffers(comp, res):
